@@ -38,7 +38,7 @@ let parse_ev tok =
       (match String.split_on_char '/' rest with
        | [q; un; s; c; t; fl] ->
            SnapConn (nat_of_string p, u = "1", parse_ents q, parse_ents un, parse_ents s, parse_ents c,
-                     (if t = "" then None else Some (parse_ent t)), fl.[0] = '1', fl.[1] = '1')
+                     (if t = "" then None else Some (parse_ent t)), fl.[0] = '1', fl.[1] = '1', fl.[2] = '1')
        | _ -> failwith ("snap " ^ tok))
   | ["LI"; p] -> LoseInterest (nat_of_string p)
   | ["QC"; p] -> QueueChoke (nat_of_string p)
@@ -57,13 +57,13 @@ let () = each_line (fun line ->
        | hd :: rest ->
            (match String.split_on_char ':' hd with
             | ["T"; plen; total; comp; wanted] ->
-                let s0 = xinit (n_of_string plen) (n_of_string total) (bits_of comp) (bits_of wanted) in
+                let s0 = yinit (n_of_string plen) (n_of_string total) (bits_of comp) (bits_of wanted) in
                 let arr = Array.of_list rest in
                 let events = List.map parse_ev rest in
-                (match xrun_ix s0 events O with
+                (match yrun_ix s0 events O with
                  | Inl k -> Printf.sprintf "REJECT@%d:%s" (int_of_nat k) arr.(int_of_nat k)
                  | Inr x ->
-                     let s = x.x_s in
+                     let s = x.y_x.x_s in
                      Printf.sprintf "ACCEPT %d final=%s/%d/%s" (List.length events)
                        (String.concat "" (List.map (fun b -> if b then "1" else "0") s.s_completed))
                        (List.length s.s_active) (if s.s_aggr then "1" else "0"))
